@@ -216,12 +216,15 @@ impl XmlReader {
         doc: &mut RustDocument,
         child: Node<'n, 'n>,
     ) -> Result<(), WriterError> {
-        // a types section holds one schema element per namespace: all of them are read
+        // a types section holds one schema element per namespace: all of them are read, each under its own
+        // target namespace; what follows the types section belongs to the namespace of the definitions again
+        let enclosing = doc.current_target_namespace.clone();
         let mut found = false;
         for schema in child.children().filter(|n| n.tag_name().name() == "schema") {
             found = true;
-            Self::read_xsd(schema, files, doc)?;
+            Self::read(schema, files, doc)?;
         }
+        doc.current_target_namespace = enclosing;
         if !found {
             return Err(WriterError::SchemaNotFound);
         }
